@@ -117,6 +117,10 @@ def check_contains(ctx, sig, rng):
                 offs.append(base + d)
                 labels.append(f"{nm}{'+' if d > 0 else '-'}1ns")
     times = [st + float(o_) * u.s for o_ in offs]
+    if rng.random() < 0.3:
+        # the same instants expressed in another time scale
+        sc = gen.pick(rng, ["tai", "tt", "utc"])
+        times = [getattr(t_, sc) for t_ in times]
     span = F(n) * dt
     tol = exact.time_tol(span) + exact.TIME_TOL_S
     for t, lab in zip(times, labels):
@@ -138,7 +142,7 @@ def check_contains(ctx, sig, rng):
     if bool(sig.contains(sp)):
         ctx.violation(o, "contains(stop_time) is True (interval must be half-open)", {"len": n}, {"what": "stop_edge"})
     # array form agrees with scalar form
-    tarr = Time([t.jd1 for t in times], [t.jd2 for t in times], format="jd", scale=times[0].scale)
+    tarr = Time([t.jd1 for t in times], [t.jd2 for t in times], format="jd", scale=times[0].scale, precision=9)
     r = sig.contains(tarr)
     sc = np.array([bool(sig.contains(t)) for t in times])
     if np.shape(r) != (len(times),) or not np.array_equal(np.asarray(r, bool), sc):
@@ -334,6 +338,10 @@ def wl_slices(ctx, idx, rng):
     use_dask = rng.random() < 0.15
     sig, desc = gen.make_signal(rng, clsname, n, rate=rate, dask=use_dask, data_kind="coded", dtype=None)
     sl = rand_slice(rng, n, sk)
+    if rng.random() < 0.2:
+        # bounds given as NumPy integers (anything with __index__ is a valid slice bound)
+        conv = gen.pick(rng, [np.int64, np.int32, np.intp])
+        sl = slice(*[None if v is None else conv(v) for v in (sl.start, sl.stop, sl.step)])
     index = sl
     extra = ""
     if clsname != "Signal" and rng.random() < 0.5:
